@@ -358,6 +358,8 @@ func runMC(s *part, root, scratch, tier string, passthru []string) *PartResult {
 	}
 	deadline := start.Add(budget)
 	workers := runtime.NumCPU()
+	// soft per-scenario budget for optional deeper levels (iterative deepening)
+	soft := time.Duration(float64(budget) * 0.7 * float64(workers) / float64(total))
 	chunk := total / (workers * 6)
 	if chunk < 1 {
 		chunk = 1
@@ -390,7 +392,7 @@ func runMC(s *part, root, scratch, tier string, passthru []string) *PartResult {
 					continue
 				}
 				of := filepath.Join(scratch, fmt.Sprintf("r-%d-%d.json", j.lo, j.hi))
-				args := append([]string{"-test.run", "^TestMC$", "-test.timeout", "0", "-tier", tier, "-range", fmt.Sprintf("%d:%d", j.lo, j.hi), "-out", of, "-deadline", left.String()}, passthru...)
+				args := append([]string{"-test.run", "^TestMC$", "-test.timeout", "0", "-tier", tier, "-range", fmt.Sprintf("%d:%d", j.lo, j.hi), "-out", of, "-deadline", left.String(), "-soft", soft.String()}, passthru...)
 				o, err := run(root, []string{"GOMAXPROCS=2"}, bin, args...)
 				var sr hx.ShardResult
 				b, rerr := os.ReadFile(of)
@@ -443,6 +445,7 @@ func mergeMC(s *part, root, tier string, results []hx.ShardResult, total, notSta
 	maxDepth, maxSteps := 0, 0
 	ran, complete := 0, 0
 	minBound := -2
+	boundHist := map[string]int{}
 	var capped []string
 	var samples []any
 	var findings []evid.Finding
@@ -476,6 +479,11 @@ func mergeMC(s *part, root, tier string, results []hx.ShardResult, total, notSta
 			if len(st.Violations) == 0 && (minBound == -2 || st.BoundCompleted < minBound) {
 				minBound = st.BoundCompleted
 			}
+			mode := "preemption-bound"
+			if r.Delay {
+				mode = "delay-bound"
+			}
+			boundHist[fmt.Sprintf("%s completed=%d", mode, st.BoundCompleted)]++
 			if len(samples) < 5 && st.Execs > 1 {
 				samples = append(samples, map[string]any{
 					"scenario": r.Name, "bound": r.Bound, "executions": st.Execs, "executions_per_cost_level": st.ExecsPerLevel,
